@@ -187,6 +187,7 @@ func TestCheck(t *testing.T) {
 	nQ := run.N(800, 12000)
 	opts := gen.DefaultGenOpts()
 	opts.UnionSecondFragment = true
+	opts.RootTypename = true
 	var executions int64
 	run.Each(nQ, 8, func(i int) {
 		r := run.Rand("query", i)
